@@ -51,6 +51,30 @@ theorem Inv.cntHas_eq (h : Inv cmp s) (key : K) :
     simp [this]
   rw [this]; simp
 
+/-- The levels that hold a node equivalent to `key` are those that hold the stored node. -/
+theorem Inv.cntHit_eq (hc : WeakCmp cmp) (h : Inv cmp s) {key n : K}
+    (hf : findEq cmp key (chain0 s) = some n) :
+    cntHit cmp key (s.lv.take s.level).reverse = heightOf s n := by
+  rw [← h.cntHas_eq n]
+  unfold cntHit cntHas
+  congr 1
+  apply List.filter_congr
+  intro l hl
+  have hsub := h.sub0 l (List.mem_of_mem_take (List.mem_reverse.mp hl))
+  rw [findEq_sublist hc h.sorted0 hsub, hf]
+  simp only []
+  by_cases hnl : n ∈ l <;> simp [hnl]
+
+theorem Inv.cntHit_zero (hc : WeakCmp cmp) (h : Inv cmp s) {key : K}
+    (hf : findEq cmp key (chain0 s) = none) :
+    cntHit cmp key (s.lv.take s.level).reverse = 0 := by
+  unfold cntHit
+  rw [List.length_eq_zero_iff, List.filter_eq_nil_iff]
+  intro l hl
+  have hsub := h.sub0 l (List.mem_of_mem_take (List.mem_reverse.mp hl))
+  rw [findEq_sublist hc h.sorted0 hsub, hf]
+  simp
+
 theorem Inv.heightOf_le (h : Inv cmp s) (key : K) : heightOf s key ≤ s.level := by
   rw [← h.cntHas_eq key]
   unfold cntHas
@@ -102,16 +126,16 @@ theorem shrink_spec (lv : List (List K)) : ∀ (m : Nat), m ≤ lv.length → 1 
 def levelAfter (lv' : List (List K)) (level n : Nat) : Option Nat :=
   if n ≥ level then shrink lv' level else some level
 
-theorem remove_absent (cfg : Cfg K V) (hc : TotalCmp cfg.cmp) {s : SL K V} (h : Inv cfg.cmp s)
-    {key : K} (hk : key ∉ chain0 s) : s.remove cfg key = some (s, cfg.zeroV, false) := by
-  obtain ⟨ls, h1, h2, _, _, _⟩ := h.search_prep key
+theorem remove_absent (cfg : Cfg K V) (hc : WeakCmp cfg.cmp) {s : SL K V} (h : Inv cfg.cmp s)
+    {key : K} (hk : findEq cfg.cmp key (chain0 s) = none) : s.remove cfg key = some (s, cfg.zeroV, false) := by
+  obtain ⟨ls, h1, h2, _, _, _⟩ := h.search_prep hc key
   have hls : ls = (s.lv.take s.level).reverse := by
     have hle : s.level ≤ s.lv.length := by rw [h.len32]; exact h.lvl.2
     simp [SL.levelsDown, hle] at h1; exact h1.symm
   unfold SL.remove
   simp only [h1]
   rw [removeLoop_spec hc key ls none 0 [] h2 (fun l _ c hcn => by cases hcn)]
-  have : cntHas key ls = 0 := by rw [hls, h.cntHas_eq, h.heightOf_eq_zero]; exact hk
+  have : cntHit cfg.cmp key ls = 0 := by rw [hls, h.cntHit_zero hc hk]
   simp [this]
 
 /-- The state after removing `key`, given the new level. -/
@@ -119,29 +143,31 @@ def removed (cmp : K → K → Int) (s : SL K V) (key : K) (lvl : Nat) : SL K V 
   { s with lv := delTop cmp key (heightOf s key) s.lv, vals := eraseVal s.vals key, level := lvl,
            len := s.len - 1 }
 
-theorem remove_found (cfg : Cfg K V) (hc : TotalCmp cfg.cmp) {s : SL K V} (h : Inv cfg.cmp s)
-    {key : K} (hk : key ∈ chain0 s) :
-    ∃ val lvl, getVal s.vals key = some val ∧
-      levelAfter (delTop cfg.cmp key (heightOf s key) s.lv) s.level (heightOf s key) = some lvl ∧
-      s.remove cfg key = some (removed cfg.cmp s key lvl, val, true) := by
-  obtain ⟨ls, h1, h2, _, h4, h5⟩ := h.search_prep key
+/-- `Remove(key)` when the stored node `n` is equivalent to `key`: node `n` goes. -/
+theorem remove_found (cfg : Cfg K V) (hc : WeakCmp cfg.cmp) {s : SL K V} (h : Inv cfg.cmp s)
+    {key n : K} (hf : findEq cfg.cmp key (chain0 s) = some n) :
+    ∃ val lvl, getVal s.vals n = some val ∧
+      levelAfter (delTop cfg.cmp n (heightOf s n) s.lv) s.level (heightOf s n) = some lvl ∧
+      s.remove cfg key = some (removed cfg.cmp s n lvl, val, true) := by
+  obtain ⟨hk, hnk⟩ := findEq_some hf
+  obtain ⟨ls, h1, h2, _, h4, h5⟩ := h.search_prep hc key
   obtain ⟨rest, hr⟩ := h.lv_cons
   have hle : s.level ≤ s.lv.length := by rw [h.len32]; exact h.lvl.2
   have hls : ls = (s.lv.take s.level).reverse := by
     simp [SL.levelsDown, hle] at h1; exact h1.symm
-  have hcnt : cntHas key ls = heightOf s key := by rw [hls, h.cntHas_eq]
-  have hn0 : heightOf s key ≠ 0 := fun e => (h.heightOf_eq_zero key).mp e hk
-  have hnle := h.heightOf_le key
-  obtain ⟨val, hval⟩ : ∃ val, getVal s.vals key = some val := by
-    have := getVal_isSome.mpr ((h.vals key).mpr hk)
+  have hcnt : cntHit cfg.cmp key ls = heightOf s n := by rw [hls, h.cntHit_eq hc hf]
+  have hn0 : heightOf s n ≠ 0 := fun e => (h.heightOf_eq_zero n).mp e hk
+  have hnle := h.heightOf_le n
+  obtain ⟨val, hval⟩ : ∃ val, getVal s.vals n = some val := by
+    have := getVal_isSome.mpr ((h.vals n).mpr hk)
     exact Option.isSome_iff_exists.mp this
   have hs0 := h.sorted0
-  obtain ⟨hpre, hpost⟩ := tower_prefix key h.tower
+  obtain ⟨hpre, hpost⟩ := tower_prefix n h.tower
   -- the level computation cannot fail
-  have hlvl : ∃ lvl, levelAfter (delTop cfg.cmp key (heightOf s key) s.lv) s.level (heightOf s key) = some lvl := by
+  have hlvl : ∃ lvl, levelAfter (delTop cfg.cmp n (heightOf s n) s.lv) s.level (heightOf s n) = some lvl := by
     unfold levelAfter
     split
-    · obtain ⟨m', hm', _⟩ := shrink_spec (delTop cfg.cmp key (heightOf s key) s.lv) s.level
+    · obtain ⟨m', hm', _⟩ := shrink_spec (delTop cfg.cmp n (heightOf s n) s.lv) s.level
         (by rw [length_delTop]; exact hle) h.lvl.1
       exact ⟨m', hm'⟩
     · exact ⟨_, rfl⟩
@@ -151,17 +177,19 @@ theorem remove_found (cfg : Cfg K V) (hc : TotalCmp cfg.cmp) {s : SL K V} (h : I
   simp only [h1]
   rw [removeLoop_spec hc key ls none 0 [] h2 (fun l _ c hcn => by cases hcn)]
   simp only [if_true, hcnt, h5, h4, List.append_nil]
-  have hb : (heightOf s key == 0) = false := by simp [hn0]
+  -- the search for `key` walked exactly as a search for the stored node would
+  rw [pred_congr hc hnk]
+  have hb : (heightOf s n == 0) = false := by simp [hn0]
   simp only [hb, Bool.false_eq_true, if_false]
   rw [hr]
   simp only []
-  rw [(upto_after_pred hc key hs0).2, ge_of_mem hc hs0 hk]
+  rw [(upto_after_pred hc n hs0).2, ge_of_mem hc hs0 hk]
   simp only [hval]
   rw [← hr]
-  rw [unsplice_spec hc key (heightOf s key) s.lv _ (by omega) (by simp; omega) h.tower.1 _ hpre]
+  rw [unsplice_spec hc n (heightOf s n) s.lv _ (by omega) (by simp; omega) h.tower.1 _ hpre]
   · simp only []
     unfold levelAfter at hlvl
-    by_cases hge : heightOf s key ≥ s.level
+    by_cases hge : heightOf s n ≥ s.level
     · simp only [hge, if_true] at hlvl
       simp [hge, hlvl, removed]
     · simp only [hge, if_false, Option.some.injEq] at hlvl
